@@ -13,7 +13,7 @@ tfd = tfp.distributions
 
 LEVEL = "translation_validation"
 BOUNDS = {"distributions": "44 of the 46 exported TFP wrappers (beta_quotient and skellam are outside the claim), one parameter template each in the valid domain (scalars, or length-2/3 vectors for the multivariate ones); parameters and the value are symbolic around the template shapes",
-          "batch shapes": "scalar distributions also with parameters and value of batch shape (2,) (quick: 10 distributions, thorough: all scalar ones)", "operations": "assess, importance(full) weight+score, update(v->v') weight, update with a flag-masked constraint and changed parameters, simulate score vs log_prob of the sampled value, keyword vs positional invocation, sample dtype"}
+          "batch shapes": "scalar distributions also with parameters and value of batch shape (2,) (quick: 10 distributions, thorough: all scalar ones)", "operations": "assess, importance(full) weight+score, update(v->v') weight, update with a flag-masked constraint and changed parameters, chained updates (quick: 10 distributions) on the returned trace's own arguments, simulate score vs log_prob of the sampled value, keyword vs positional invocation, sample dtype"}
 ASSUMPTIONS = ["both sides trace the same TFP log_prob code, so special functions (lgamma, bessel, cholesky, ...) are the same uninterpreted symbols on both sides; what is decided is GenJAX's wrapper (summing, kwargs path, implicit-logit wrapper, masks)",
                "TFP samplers that cannot be encoded (rejection loops) are uninterpreted functions of (key, parameters)"]
 TOO_LARGE = {"beta_quotient", "skellam"}  # log_prob is a numerical quadrature: 328 000 jaxpr equations encoded in 270 s, z3 'unknown' after 60 s
@@ -75,6 +75,8 @@ T = {
 
 
 # parameters / values that must keep their template value (simplex, unit norm, PSD, integer counts tied to totals)
+CHAINED_QUICK = ("normal", "gamma", "beta", "bernoulli", "categorical", "flip", "uniform", "mv_normal_diag", "poisson", "dirichlet")
+
 FIXED = {
     "dirichlet": ((), True), "dirichlet_multinomial": ((0,), True), "multinomial": ((0,), True), "mv_normal": ((1,), False),
     "power_spherical": ((0,), True), "von_mises_fisher": ((0,), True), "beta_binomial": ((0,), False), "binomial": ((0,), False),
@@ -150,6 +152,20 @@ def obligations(tier, seed):
 
         obs.append(Ob(f"C24/masked-update/{nm}", mupd, (gfi.KEY, params, params, v, v2, jnp.array(True)), assume=lambda key, p, p2, *vals, A=A: A(key, p, *vals[:2]) + A(key, p2), selfcheck=False, timeout_s=20,
                       note="update with a constraint masked by a traced flag and changed parameters: score == log_prob of the kept/new value under the NEW parameters, weight == new - old"))
+
+        if tier == "thorough" or nm in CHAINED_QUICK:
+            def chained(key, p, p2, val, val2, g=g, lp=lp, fix=fix):
+                p, val, val2 = fix(p, val, val2)
+                p2 = fix(p2, val, val2)[0]
+                tr, _ = g.importance(key, C.v(val), p)
+                tr1, w1, _, _ = tr.update(key, C.v(val2), Diff.unknown_change(p2))
+                tr2, w2, _, _ = tr1.update(key, C.v(val))  # argdiffs default: no change of the RETURNED trace's arguments
+                tr3, w3, _, _ = tr1.update(key, C.n())
+                return ((tr1.get_score(), w1, tuple(tr1.get_args()), tr2.get_score(), w2, tuple(tr2.get_args()), tr3.get_score()),
+                        (lp(val2, *p2), lp(val2, *p2) - lp(val, *p), tuple(p2), lp(val, *p2), lp(val, *p2) - lp(val2, *p2), tuple(p2), lp(val2, *p2)))
+
+            obs.append(Ob(f"C24/chained-update/{nm}", chained, (gfi.KEY, params, params, v, v2), assume=lambda key, p, p2, *vals, A=A: A(key, p, *vals[:2]) + A(key, p2), selfcheck=False, timeout_s=20,
+                          note="update(value, changed parameters) then update(value) on the returned trace: the returned trace carries the NEW parameters; the second score / weight are log_probs under them"))
 
         def sim(key, p, g=g, lp=lp, fix=fix):
             p = fix(p, None)[0]
